@@ -666,8 +666,10 @@ def judge_export(ctx, exc, c, H, M, o, I, expk):
 # ----------------------------------------------------------------------------- success clause on small lattices
 API_NAMES = {1: 'Clipper64::Execute(Paths64,open)', 2: 'Clipper64::Execute(PolyTree64,open)', 4: 'ClipperD::Execute(PathsD,open)',
              8: 'ClipperD::Execute(PolyTreeD,open)', 16: 'BooleanOp64', 32: 'BooleanOp_PolyTree64', 64: 'BooleanOpD', 128: 'BooleanOp_PolyTreeD',
-             256: 'NoClip solution not empty', 512: 'overloads disagree about success'}
-ALL_APIS = 255
+             256: 'NoClip solution not empty', 512: 'overloads disagree about success',
+             1024: 'Clipper64 + AddReuseableData (fresh, then Clear + attach again)', 2048: 'one Clipper64 executed three times'}
+API_BITS = 255 | 1024 | 2048
+ALL_APIS = API_BITS
 
 
 def succ_parse_case(tok):
@@ -736,7 +738,7 @@ def succ_report(ctx, exe, mask, ct, fr, sets, where):
     names = [API_NAMES[b] for b in sorted(API_NAMES) if mask & b]
     line = '%d %d %s' % (ct, fr, ' '.join(S.put_paths(x) for x in sets))
     rp = dict(succ=line, mask=mask, build='exceptions', where=where)
-    if mask & 255:
+    if mask & API_BITS:
         key = 'success.execute-false.%s' % ('with-open-paths' if sets[1] else 'closed-only')
         viol(ctx, key, 'Execute returned false / the export returned non-zero (%s) on clip type %d, fill rule %d, subjects %s, open subjects %s, clips %s'
                   % (', '.join(names), ct, fr, S.put_paths(sets[0]), S.put_paths(sets[1]), S.put_paths(sets[2])), replay=rp)
